@@ -66,8 +66,23 @@ def build_prog(p, atoms, depth=0):
     if t == "inv":
         return TR.InverseTransform(build_prog(p["p"], atoms, depth + 1))
     parts = [build_prog(q, atoms, depth + 1) for q in p["ps"]]
-    # "an iterable of Transform objects": list, tuple, generator, iterator, map
-    kind = (len(parts) + depth + sum(1 for _ in str(p))) % 5
+    # "an iterable of Transform objects": list, tuple, generator, iterator, map, nn.ModuleList.  The container is
+    # the caller's: what the caller does to it afterwards (a growing list of layers from which flows of increasing
+    # depth are built) must not reach into the composite that was built from it
+    kind = (len(parts) + depth + sum(1 for _ in str(p))) % 6
+    if kind == 5:
+        import torch
+
+        box = torch.nn.ModuleList(parts)
+        comp = TR.CompositeTransform(box)
+        box.append(TR.PointwiseAffineTransform(shift=0.7, scale=3.0))
+        box[0] = TR.PointwiseAffineTransform(shift=-0.3, scale=0.5)
+        return comp
+    if kind == 0 and depth % 2 == 1:
+        box = list(parts)
+        comp = TR.CompositeTransform(box)
+        box.append(TR.PointwiseAffineTransform(shift=0.7, scale=3.0))
+        return comp
     if kind == 1:
         return TR.CompositeTransform(tuple(parts))
     if kind == 2:
